@@ -571,19 +571,18 @@ impl Datamodel for RFsmExpressionDatamodel {
     fn execute(&mut self, script: &Data) -> Result<DataArc, String> {
         match self.execute_internal(script, true) {
             Ok(r) => {
-                match r.lock().unwrap().deref() {
-                    Data::Double(_)
-                    | Data::Source(_)
-                    | Data::String(_)
-                    | Data::Boolean(_)
-                    | Data::Null()
-                    | Data::None()
-                    | Data::Integer(_) => (),
-                    Data::Array(_) => return Err("Illegal Result: Can't return array".to_string()),
-                    Data::Map(_) => return Err("Illegal Result: Can't return maps".to_string()),
-                    Data::Error(err) => return Err(err.clone()),
+                // Any value is a legal result (arrays and maps too, e.g. as value of a <param>).
+                let error = match r.lock().unwrap().deref() {
+                    Data::Error(err) => Some(err.clone()),
+                    _ => None,
+                };
+                match error {
+                    Some(err) => {
+                        self.internal_error_execution();
+                        Err(err)
+                    }
+                    None => Ok(r),
                 }
-                Ok(r)
             }
             Err(err) => Err(err),
         }
